@@ -41,7 +41,7 @@ EXPLANATION = (
     ' R9 (imported from C08-R6): the decoder builds unions through Union.__init__, whose type-only shortcut must stay limited to Struct/Union validators.'
     ' R11 (imported from C08-R10): condition drift of the runtime refusal sites.'
     ' RD (decision drift, stonelint.conddrift): the tests of the functions this property is anchored in (stonelint.ownership) are compared with reference/conditions.json; a relation, polarity or connective changed over the same operands, or an operand purely added or dropped, is a violation; re-spellings and new or removed tests are not claimed.'
-    " RE (expression drift, stonelint.exprdrift): the same functions' attribute names, variable reads, simple statements, calls and arithmetic/slice literals are compared with reference/expressions.json; a substituted attribute or variable, a dropped call or assignment, swapped arguments or a changed literal is a violation; any other edit is not claimed.")
+    " RE (expression drift, stonelint.exprdrift): the same functions' attribute names, variable reads, simple statements, calls and arithmetic/slice literals are compared with reference/expressions.json; a substituted attribute or variable, a dropped call or assignment, swapped arguments or a changed literal is a violation; any other edit is not claimed. RC (call-condition drift, stonelint.conddrift.run_calls): for every call of a repository or imported-library function in those functions, the path conditions of its occurrences are compared with reference/conditions.json by truth table; an assignment under which the function used to make the call and now completes without it is a violation (tests on memo tables, emptiness of the iterated collection and earlier refusals excepted; re-spelled conditions are not claimed). MK (memo-key rule, stonelint.memo): a memo table or done-set the reference tree does not have must be keyed by every access path the skipped code reads, injectively and type-aware.")
 ASSUMPTIONS = [
     'CPython ast of the working tree is the program; structured control flow',
     'implicit exceptions are modelled only for: container operations on the untrusted document, '
@@ -683,6 +683,8 @@ def run(pm, ctx):
                      'the decoder and the validators refuse under the conditions confirmed on the '
                      'reference tree (shared with C08-R10)')
 
+    unknown_members_per_key(pm, ctx)
+
     from ..conddrift import run_decisions
     from ..ownership import OWN
     run_decisions(pm, ctx, 'C06-RD', OWN['C06'])
@@ -706,3 +708,42 @@ def _construct(site):
     if isinstance(n, ast.Call):
         return unparse(n.func) + '(...)'
     return type(n).__name__
+
+
+def unknown_members_per_key(pm, ctx):
+    """C06-R13: "no key of the document outside the declared ones" is a
+    statement about every key; the refusals that implement it are decided per
+    key (inside a loop over the document, reporting the loop variable, or under
+    a condition that ranges over the keys: a comprehension, set(...) or any()),
+    never by the number of keys alone."""
+    from ..conddrift import _subst_text
+    ctx.rule('C06-R13', 'the refusals of undeclared keys (unknown field / unexpected key) are '
+                        'decided for each key of the document, not from the number of keys')
+    n = 0
+    for f in pm.funcs_in(SER):
+        pi = path_info(f.node)
+        for r in own_nodes(f.node):
+            if not (isinstance(r, ast.Raise) and r.exc is not None):
+                continue
+            msg = next((x.value for x in ast.walk(r.exc) if isinstance(x, ast.Constant) and
+                        isinstance(x.value, str)), '')
+            if not (msg.startswith('unknown field') or msg.startswith('unexpected key')):
+                continue
+            n += 1
+            loops = [l for l in pi.loops_at(r) if isinstance(l, ast.For)]
+            loop_vars = {t.id for l in loops for t in ast.walk(l.target) if isinstance(t, ast.Name)}
+            reported = {x.id for x in ast.walk(r.exc) if isinstance(x, ast.Name)}
+            per_key = bool(loop_vars & reported)
+            if not per_key:
+                conds = [_subst_text(f, e) for e, _ in pi.at(r)]
+                per_key = any((' for ' in c and ' in ' in c) or 'set(' in c or 'any(' in c or
+                              'all(' in c for c in conds) and not any(
+                                  c.replace(' ', '').startswith('len(') for c in conds)
+            ctx.check('C06-R13', per_key, '%s: %r is decided per key' % (f.short, msg[:20]),
+                      '%s:%d' % (f.module.relpath, r.lineno),
+                      msg='%s refuses %r under a condition that does not range over the keys of '
+                          'the document (%s): a document with an undeclared key in place of a '
+                          'declared one is accepted' % (
+                              f.short, msg[:24], [unparse(e)[:40] for e, _ in pi.at(r)][-2:]),
+                      key='C06-R13|%s|%s' % (f.qualname, msg[:14]))
+    ctx.floor('C06-R13', n, 3, 'undeclared-key refusal sites')
